@@ -53,6 +53,17 @@ def atoms(vars_, consts):
     return out
 
 
+def chained_formulas():
+    """Chained comparisons, plain, negated and combined: `not 0 < x < 5` is not `0 >= x`."""
+    out = []
+    for a, b in itertools.product(OPS, repeat=2):
+        for lo, hi in ((0, 5), (2, 2), (3, 1)):
+            chain = f"{lo} {a} x {b} {hi}"
+            out += [chain, f"not {chain}", f"not ({chain})", f"{chain} and x != 1", f"not {chain} or x == 4"]
+        out += [f"x {a} y {b} 0", f"not x {a} y {b} 0", f"not (x {a} y {b} 3)", f"x {a} 1 {b} y", f"not 1 {a} x {b} y"]
+    return out
+
+
 def two_atom_formulas(vars_, consts):
     A = atoms(vars_, consts)
     for a, b in itertools.product(A, repeat=2):
@@ -304,6 +315,7 @@ def main() -> int:
     two_var = list(two_atom_formulas(["x", "y"], range(0, 3)))
     formulas += r.sample(two_var, 8000 if thorough else 2500)
     formulas += random_formulas(8000 if thorough else 3000, "rand")
+    formulas += chained_formulas()
     tasks = []
 
     def add(bodies, rules, size=20, **kw):
